@@ -326,3 +326,21 @@ func isCmpOp(op token.Token) bool {
 }
 
 func token_EQL() token.Token { return token.EQL }
+
+// isCountingPhi: ph is the induction variable of a counting loop (one of its edges is ph+1).
+func isCountingPhi(ph *ssa.Phi) bool {
+	for _, e := range ph.Edges {
+		if b, ok := stripConv(e).(*ssa.BinOp); ok && b.Op == token.ADD && stripConv(b.X) == ssa.Value(ph) {
+			if k, isC := constInt(b.Y); isC && k == 1 {
+				return true
+			}
+		}
+	}
+	return false
+}
+
+// phiNamedOr: the phi carries the source variable name `name`, or — the variable having been
+// renamed — satisfies the structural role test.
+func phiNamedOr(ph *ssa.Phi, name string, role func(*ssa.Phi) bool) bool {
+	return ph.Comment == name || (role != nil && role(ph))
+}
